@@ -13,6 +13,8 @@ CHECKS = {
  "C11": (True, "Bounded model checking of for/tablerow/cycle/break/continue through the real pipeline: offset, limit and cols range over all 64-bit integers as solver variables, collection length and representation are forked, and output including every forloop field is compared with a reference select (reverse, skip, take).", "DESIGN.md §4 C11"),
  "C12": (True, "Bounded model checking of assign/capture visibility and loop-variable restoration: payloads (strings with symbolic bytes, integers, booleans) are solver variables, program shapes are forked, probes after every construct are compared with the expected text, and capture(F);print is compared with F on a fragment corpus.", "DESIGN.md §4 C12"),
  "C13": (True, "Bounded model checking of whitespace control at token level through the real parseTokens, compileNode, Render and trimWriter: presence of every trim token is a solver Boolean, text pieces and values have symbolic bytes, and the output is compared with (A) whitespace-erasure equality, (B) a reference trimmer when every hyphen faces literal text, (C) identity without hyphens.", "DESIGN.md §4 C13"),
+ "C06": (True, "Bounded model checking of the block parser: the real parseTokens with the grammar built by the real AddStandardTags runs on every token sequence up to N over a 23-symbol alphabet (symbols are solver variables), and acceptance, the absence of a tree on rejection, and the shape of the tree are compared with a stack acceptor written from the statement; accepted trees are compiled.", "DESIGN.md §4 C06"),
+ "C07": (True, "Bounded model checking of error location: tokens carry arbitrary (monotone) 64-bit line numbers as solver variables, path present/absent and nesting shapes are forked, and for each kind of render-time and parse-time failure the reported LineNumber, Path, message and Cause are asserted against the innermost failing token.", "DESIGN.md §4 C07"),
  "C09": (True, "Bounded model checking of values.Equal/Less/Contains and the grammar's operator actions: every ordered pair of scalar kinds is forked, payloads (all integers of each width, finite floats, short strings, small arrays) are solver variables, and the documented comparison rules are asserted as a reference written from the statement.", "DESIGN.md §4 C09"),
 }
 ALL = ["C%02d" % i for i in range(1, 21)]
